@@ -4,7 +4,8 @@ CFG = {'assumptions': ['f64 inputs cross the boundary as bit patterns and are de
                  "coordinates are finite (NaN != NaN makes 'closed' unsatisfiable)"],
  'translator': True,
  'count': {'quick': 20000, 'thorough': 1000000},
- 'lean_files': ['GeoModel/Gen/RectGen.lean', 'GeoModel/PolygonSM.lean', 'GeoModel/Traverse.lean', 'GeoModel/Ops/C18.lean'],
+ 'lean_files': ['GeoModel/Gen/RectGen.lean', 'GeoModel/Gen/PolygonSMGen.lean', 'GeoModel/TRANPrelude.lean',
+                'GeoProofs/Lemmas/TRANPolygonSM.lean', 'GeoModel/PolygonSM.lean', 'GeoModel/Traverse.lean', 'GeoModel/Ops/C18.lean'],
  'rule': 'random API histories (1-13 ops over '
          'Polygon::new/exterior_mut/try_exterior_mut/interiors_mut/try_interiors_mut/interiors_push with '
          'edit-program closures and independent Ok/Err exits), Rect new/set_min/set_max histories incl. '
@@ -13,12 +14,17 @@ CFG = {'assumptions': ['f64 inputs cross the boundary as bit patterns and are de
  'trusted_base': ['modelled, not verified: closures are drawn from an 8-instruction edit language (the '
                   'theorems quantify over all functions)',
                   'a panicking Rect setter ends the modelled history (state after unwinding is not '
-                  'observed)']}
+                  'observed)',
+                  'translator/rs2lean.py + rsexpr.py (statement fragment): explicit choices for the Polygon state machine — '
+                  'Vec::push = append, `for r in &mut v` = map, `self.0[0]` under the debug_assert!(!self.0.is_empty()) of '
+                  'LineString::close, a closure parameter FnOnce(&mut LineString) [-> Result] = a function ring -> (ring, ok), '
+                  'FnOnce(&mut [LineString]) = the same on the list of rings fitted back to its length (fitLen)']}
 
 MANIFEST = {'note': 'Trusted: Lean 4.33 kernel (axioms propext, Classical.choice, Quot.sound only; audited per theorem '
          'each run; no sorry, no native_decide, no added axioms); the Lean compiler running the model; the '
          'Rust harness, generators and line protocol (sampling, not proof). The theorems are about the '
-         'hand-written model; the model is tied to the code by running both on the same inputs each run. '
+         'hand-written model; the model is tied to the code by running both on the same inputs each run and, for the '
+         'Polygon state machine and the Rect kernels, by translator tie theorems. '
          'Closures in the correspondence come from an 8-instruction edit language; NaN coordinates excluded; '
          'state after a panicking Rect setter is not observed.',
  'technique': 'Lean 4 proof (invariant by induction over all API histories and all closures) + '
@@ -29,4 +35,7 @@ MANIFEST = {'note': 'Trusted: Lean 4.33 kernel (axioms propext, Classical.choice
          'the documented coordinate lists. The model (a state machine over arbitrary coordinate types) is '
          'tied to geo-types by replaying random histories with Ok/Err exits on the real Polygon/Rect API and '
          "demanding identical states after every call; the closedness checker runs on the implementation's "
-         'own states.'}
+         'own states. Translator tie (TRAN, polygon_sm_eq_source): LineString::close, Polygon::new, exterior_mut, '
+         'try_exterior_mut, interiors_mut, try_interiors_mut and interiors_push are regenerated from geo-types on every run '
+         'and proved equal to close / mkNew / every clause of step, so inv_step and inv_run are theorems about terms read off '
+         'the current source (the Rect kernels already were: rect_kernels_eq_source).'}
